@@ -258,3 +258,24 @@ Example C06_example_lint_hyps :
   Lint.lint_clean exPL ∧ Lint.lint_clean exSC ∧ closed (c_g exPL) ∧ closed (c_g exSC) ∧
   (add_subcircuit exPL exSC "u0" [("a", ["x"])]).2 = Done ∧ Lint.lint_clean (add_subcircuit exPL exSC "u0" [("a", ["x"])]).1.
 Proof. repeat split; try (apply closedb_spec); vm_compute; reflexivity. Qed.
+(* the flip-flop instance of exPF filled with an inverter: every hypothesis of C06_fill_lint_clean holds, and the result is lint-clean *)
+Example C06_example_fill_lint_hyps :
+  Lint.lint_clean exPF ∧ Lint.lint_clean exBody ∧ closed (c_g exPF) ∧ closed (c_g exBody) ∧
+  Lint.has_dot "f" = false ∧ bb_in exD ## bb_out exD ∧
+  (∀ p, p ∈ bb_in exD ∪ bb_out exD → Lint.has_dot p = false) ∧
+  (∀ n, n ∈ dom (c_g exPF) → Lint.has_dot n = true → Lint.before_dot n = "f" →
+        ∃ p, p ∈ bb_in exD ∪ bb_out exD ∧ n = Lint.pin "f" p) ∧
+  Lint.lint_clean (fill_blackbox exPF "f" exBody).1.
+Proof.
+  split; [vm_compute; reflexivity|]. split; [vm_compute; reflexivity|].
+  split; [apply closedb_spec; vm_compute; reflexivity|]. split; [apply closedb_spec; vm_compute; reflexivity|].
+  split; [reflexivity|]. split; [apply (bool_decide_unpack _); vm_compute; exact I|].
+  split.
+  { assert (H : set_Forall (λ p, Lint.has_dot p = false) (bb_in exD ∪ bb_out exD)) by (apply (bool_decide_unpack _); vm_compute; exact I).
+    exact H. }
+  split; [|vm_compute; reflexivity].
+  assert (H : set_Forall (λ n, Lint.has_dot n = true → Lint.before_dot n = "f" → n = Lint.pin "f" "d" ∨ n = Lint.pin "f" "q") (dom (c_g exPF)))
+    by (apply (bool_decide_unpack _); vm_compute; exact I).
+  intros n Hn Hd Hb. destruct (H n Hn Hd Hb) as [->| ->]; [exists "d"|exists "q"]; (split; [|done]);
+    apply (bool_decide_unpack _); vm_compute; exact I.
+Qed.
